@@ -4,7 +4,7 @@ from lib import wire
 from lib.shrink import shrink_seq
 
 TABLES = ['T03', 'T10']
-RULE = ('histories: corpus + seeded random action lists (3-6 users, 1-3 channels, 20-120 actions: multi-target JOIN/PART/KICK, '
+RULE = ('histories (one network, and PAIRS of histories over the same nicks run interleaved on two Irc objects of two networks, both bots compared with their own server after every step, plus the clause that two IrcState objects share no container): corpus + seeded random action lists (3-6 users, 1-3 channels, 20-120 actions: multi-target JOIN/PART/KICK, '
         'mixed +/- mode strings with and without parameters, case-variant spellings of nicks and channels, real and case-only '
         'nick changes incl. the bot\'s own, CHGHOST, NAMES with multi-prefix / userhost-in-names, WHO, reconnect) run through the '
         'EXTRACTED reference server (coq/C10/Spec.v) to obtain the messages a conformant server sends to the bot; the messages are fed '
@@ -59,9 +59,13 @@ class _Drv:
         pass
 
 
-def new_irc():
+def new_irc(network='test'):
     e = _st
-    irc = e['irclib'].Irc('test')
+    if network != 'test' and network not in e.setdefault('networks', set()):
+        import supybot.conf as conf
+        conf.registerNetwork(network)
+        e['networks'].add(network)
+    irc = e['irclib'].Irc(network)
     irc.driver = _Drv()
     if irc in e['world'].ircs:
         e['world'].ircs.remove(irc)
@@ -431,6 +435,95 @@ def unexplained(recs, acts):
     return None
 
 
+# ---------------------------------------------------------------- two networks in one process
+def shared_state(ircA, ircB):
+    """direct oracle clause: two IrcState objects never share a container (and never a ChannelState)"""
+    out = []
+    for name in ('channels', 'nicksToHostmasks', 'supported', 'history'):
+        if getattr(ircA.state, name) is getattr(ircB.state, name):
+            out.append('state.%s of network %s IS state.%s of network %s (one object)' % (name, ircA.network, name, ircB.network))
+    ids = set(id(c) for _, c in ircA.state.channels.items())
+    for k, c in ircB.state.channels.items():
+        if id(c) in ids:
+            out.append("channel %s's record on network %s is shared with network %s" % (k, ircB.network, ircA.network))
+    return out
+
+
+def run_pair(ctx, inp, outs, record=True):
+    """inp = {'op': 'pair', 'mp', 'uh', 'a': acts of network A, 'b': acts of network B}: the two histories run interleaved
+    (A's action i, then B's action i) on TWO Irc objects in this process; after EVERY step BOTH bots are compared with
+    their own server's view.  returns the first failure or None."""
+    _env()
+    ircs = [new_irc('test'), new_irc('net2')]
+    hs = [{'op': 'hist', 'mp': inp['mp'], 'uh': inp['uh'], 'acts': inp['a']}, {'op': 'hist', 'mp': inp['mp'], 'uh': inp['uh'], 'acts': inp['b']}]
+    if inp.get('steps') is not None:
+        steps = inp['steps']
+    else:
+        steps = [[[[dec_msg(m) for m in st[0]], st[1], dec_view(st[2])] for st in out] for out in outs]
+    views = [[ircs[0].nick, [], []], [ircs[1].nick, [], []]]
+    diverged = [False, False]
+    nmsg = 0
+    for i in range(max(len(steps[0]), len(steps[1]))):
+        for w in (0, 1):
+            if i >= len(steps[w]):
+                continue
+            msgs, dumps, view = steps[w][i]
+            for j, m in enumerate(msgs):
+                if not impl_feed(ircs[w], m):
+                    return None
+                nmsg += 1
+                if ctx is not None and record and dumps is not None and not diverged[w]:
+                    md, d = model_dump(dumps[j]), impl_dump(ircs[w])
+                    if md != d:
+                        ctx.disagree({'op': 'pair', 'mp': inp['mp'], 'uh': inp['uh'], 'a': inp['a'][:i + 1], 'b': inp['b'][:i + 1 if w else i]},
+                                     md, d, 'network %s: dump after message %r' % (ircs[w].network, m))
+                        diverged[w] = True
+            views[w] = view
+            bad = []
+            for k in (0, 1):      # both bots are looked at after every step of either network
+                mp_all = bool(inp['mp']) and all(a[2] for a in hs[k]['acts'][:i + 1] if a[0] == 'names')
+                ds = view_diffs(impl_dump(ircs[k]), views[k], mp_all)
+                ds += [{'aspect': 'alias', 'chan': kk, 'key': a, 'bot': 'one ChannelState under two names', 'server': 'two channels'} for a, kk in aliases(ircs[k])]
+                if ds:
+                    bad.append('network %s: %s' % (ircs[k].network, describe(ds)))
+            bad += shared_state(ircs[0], ircs[1])
+            if bad:
+                na, nb = (i + 1, i + 1) if w else (i + 1, i)
+                return {'step': i, 'who': w, 'detail': 'after action %d of network %s %r: %s' % (i, ircs[w].network, hs[w]['acts'][i], '; '.join(bad)),
+                        'a': inp['a'][:na], 'b': inp['b'][:nb],
+                        'steps': [[[ms, None, v] for ms, _, v in steps[0][:na]], [[ms, None, v] for ms, _, v in steps[1][:nb]]]}
+    if ctx is not None and record:
+        ctx.case('two-networks', inp, nontrivial=nmsg > 0)
+    return None
+
+
+def pair_failure(inp):
+    if inp.get('steps') is not None:
+        return run_pair(None, inp, None, record=False)
+    import lib.modelproc as mp
+    outs = mp.run('C10', [hist_wire({'mp': inp['mp'], 'uh': inp['uh'], 'acts': inp['a']}), hist_wire({'mp': inp['mp'], 'uh': inp['uh'], 'acts': inp['b']})])
+    return run_pair(None, inp, outs, record=False)
+
+
+def check_pairs(ctx, pairs):
+    outs = ctx.model([hist_wire({'mp': p['mp'], 'uh': p['uh'], 'acts': p[k]}) for p in pairs for k in ('a', 'b')])
+    for n, p in enumerate(pairs):
+        oa, ob = outs[2 * n], outs[2 * n + 1]
+        if oa is None or ob is None:
+            continue
+        f = run_pair(ctx, p, [oa, ob])
+        if f:
+            ctx.case('two-networks-failing', p)
+            ctx.fail({'op': 'pair', 'mp': p['mp'], 'uh': p['uh'], 'a': f['a'], 'b': f['b'], 'steps': f['steps']}, f['detail'])
+
+
+def gen_pair(rng):
+    """two histories over the SAME nicks (different user@host on each network), no finding triggers"""
+    ha, hb = gen_history(rng, set()), gen_history(rng, set())
+    fix = lambda acts, tag: [([a[0], a[1], a[2] + tag, a[3] + '.' + tag] if a[0] == 'connect' else a) for a in acts if a[0] != 'isupport']
+    return {'op': 'pair', 'mp': True, 'uh': rng.random() < 0.5, 'a': fix(ha['acts'], 'A')[:60], 'b': fix(hb['acts'], 'B')[:60]}
+
+
 def check_histories(ctx, hs):
     outs = ctx.model([hist_wire(h) for h in hs])
     for h, out in zip(hs, outs):
@@ -605,6 +698,13 @@ CORPUS = [
                                                    ['quit', 'BAR'], ['nick', 'test', 'Test2'], ['part', 'TEST2', ['#a', '#b']], ['reset'],
                                                    ['join', 'test', ['#b']], ['kick', 'baz', '#b', ['TEST']]]},
 ]
+CORPUS_PAIRS = [
+    # two networks in one process, the same nick on both with different hostmasks; a reconnect of one of them (seeded change C10_7:
+    # IrcState.__init__ got a shared mutable default for nicksToHostmasks)
+    {'op': 'pair', 'mp': True, 'uh': False,
+     'a': [['connect', 'alice', 'ua', 'host.a'], ['join', 'test', ['#a']], ['join', 'alice', ['#a']], ['topic', 'alice', '#a', 'A'], ['who', '#a'], ['topic', 'alice', '#a', 'A2']],
+     'b': [['connect', 'alice', 'ub', 'host.b'], ['join', 'test', ['#b']], ['join', 'Alice', ['#b']], ['reset'], ['join', 'test', ['#b']], ['topic', 'alice', '#b', 'B']]},
+]
 CORPUS_RAW = [
     {'op': 'raw', 'msgs': [['test!u@h', 'JOIN', ['#a']], ['srv', 'KICK', ['#zz', 'x']], ['srv', '353', ['test', '@', '#a', 'a!b@c @+d!e@f g']],
                            ['a!b@c', 'NICK', ['A']], ['srv', 'MODE', ['#a', '+k-o+b', '007', 'D', '12']], ['srv', '324', ['test', '#q', '+ntb', 'x']],
@@ -621,6 +721,7 @@ def run(ctx):
         trig = set() if i % 4 else {'intarg'}
         hs.append(gen_history(rng, trig))
     check_histories(ctx, hs)
+    check_pairs(ctx, CORPUS_PAIRS + [gen_pair(rng) for _ in range(ctx.n(40))])
     raws = CORPUS_RAW + [r for r in (gen_raw(rng) for _ in range(ctx.n(1200))) if buildable(r)]
     e = _st
     outs = ctx.model([[1, [e['nick0'], e['prefix0'], r['msgs']]] for r in raws])
@@ -684,10 +785,24 @@ def replay(ctx, inp):
     if inp.get('op') == 'raw':
         f = run_raw(None, inp, None, record=False)
         return f['detail'] if f else None
+    if inp.get('op') == 'pair':
+        f = pair_failure(inp)
+        return f['detail'] if f else None
     return None
 
 
 def shrink(ctx, inp):
+    if inp.get('op') == 'pair':
+        cur = {'op': 'pair', 'mp': inp['mp'], 'uh': inp['uh'], 'a': list(inp['a']), 'b': list(inp['b'])}
+        for side in ('a', 'b'):
+            other = 'b' if side == 'a' else 'a'
+            keep = shrink_seq(cur[side], lambda acts: pair_failure({'op': 'pair', 'mp': cur['mp'], 'uh': cur['uh'], side: list(acts), other: cur[other]}) is not None,
+                              budget=60)
+            cur[side] = list(keep)
+        f = pair_failure(cur)
+        if f:
+            return {'op': 'pair', 'mp': cur['mp'], 'uh': cur['uh'], 'a': f['a'], 'b': f['b'], 'steps': f['steps']}
+        return inp
     if inp.get('op') == 'hist':
         want = set(inp.get('aspects') or [])
 
